@@ -1002,6 +1002,10 @@ fn lc_open(ctx: &mut Ctx, rng: &mut Rng, id: &str, c: &Case, cs: &[CommS], lcs: 
             if let Some(cc) = lc_combined_comms(c, lcs) {
                 exp.push(("lccs".into(), Expect::G1s(cc)));
             }
+            // a combined commitment carries a bound only as a single term naming a bounded polynomial
+            if let Some((lp, _)) = lc_combined(c, lcs) {
+                exp.push(("lcbounds".into(), Expect::Raw(wire::Val::L(lp.iter().map(|p| wire::opt_nat(p.degree_bound())).collect()))));
+            }
             ctx.ses.ask(id, mk("sonic.open_combinations"), ImplOutcome::Ok(exp));
         }
         Ok(Err(e)) => ctx.ses.ask(id, mk("sonic.open_combinations"), ImplOutcome::Refuse(err_kind(e))),
@@ -1044,7 +1048,17 @@ fn lc_check(ctx: &mut Ctx, rng: &mut Rng, id: &str, c: &Case, cs: &[CommS], lcs:
                     }
                     cc.push(acc);
                 }
-                if okc { exp.push(("lccs".into(), Expect::Fes(cc))); }
+                if okc {
+                    exp.push(("lccs".into(), Expect::Fes(cc)));
+                    let bs: Vec<wire::Val> = lcs.iter().map(|lc| {
+                        let t = lc_terms(lc);
+                        match (t.len(), t.first()) {
+                            (1, Some((_, LCTerm::PolyLabel(l)))) => wire::opt_nat(cs.iter().rev().find(|x| &x.label == l).and_then(|x| x.bound)),
+                            _ => wire::opt_nat(None),
+                        }
+                    }).collect();
+                    exp.push(("lcbounds".into(), Expect::Raw(wire::Val::L(bs))));
+                }
             }
             ctx.ses.ask(id, mk("sonic.check_combinations"), ImplOutcome::Ok(exp));
             if *b { Outcome3::Accept } else { Outcome3::Reject }
